@@ -163,6 +163,7 @@ Print Assumptions C03_complex_allZ_row.
    Proved below (_partial): the all-Z / negative-phase ingredient (C03_energy_grad_purification above), and that the
    auxiliary-bias block of the phase network's gradient terms is identically zero. *)
 (* PROVED below as C03_nll_gradient_mixed (section 8, at the end of this file; proofs in QTheory.GradMixedR) *)
+(* definitional: restates the model (the content is the correspondence check of this clause) *)
 Theorem C03_nll_gradient_mixed_partial : forall (am ph : prbm (T:=R)) plus expand v vp,
   (exists pre, p_gamma_grad ROps ph plus v vp = pre ++ repeat 0 (length (pd ph))) /\
   (exists pre, p_pi_grad ROps am ph true expand v vp = pre ++ repeat (0, 0) (length (pd ph))).
@@ -203,6 +204,7 @@ Theorem C03_gradient_grouping_order_invariant : forall (G : gstate (T:=R)) group
 Proof. exact gradient_grouping_order_invariant. Qed.
 Print Assumptions C03_gradient_grouping_order_invariant.
 
+(* definitional: restates the model (the content is the correspondence check of this clause) *)
 Theorem C03_positive_phase_is_gradient_over_len : forall (G : gstate (T:=R)) batch,
   positive_phase_gradients ROps G batch =
   (map (fun x => x / INR (length batch)) (fst (gradient ROps G batch)),
@@ -235,6 +237,7 @@ Proof. exact gradient_row_order_invariant. Qed.
 Print Assumptions C03_gradient_row_order_invariant.
 
 (* ---------------------------------------------------------------- 7. the public alias *)
+(* definitional: restates the model (the content is the correspondence check of this clause) *)
 Theorem C03_exact_grads_alias : forall am D space,
   pos_compute_exact_grads ROps am D space = pos_compute_exact_gradients ROps am D space.
 Proof. exact exact_grads_alias. Qed.
